@@ -65,6 +65,32 @@ def run(ctx):
         "summaries). Not decided: equality with an independent reading of the grammar beyond the shape table of C03.")
 
 
+def entails_check(ip, F, st, T, tlf_arg):
+    """does the path condition st entail <T as SmlParseTlf>::check_tlf(tlf) == true?  (the real body is evaluated)"""
+    try:
+        cb = find_impl_body(F, SPT, "check_tlf", T)
+    except (AnchorMissing, KeyError):
+        return False
+    old_sum, old_op = ip.summarizable, ip.opaque_fn
+    ip.summarizable, ip.opaque_fn = None, None
+    try:
+        outs = ip.run_root(cb, {}, [tlf_arg], st.copy())
+    except Unsupported:
+        return False
+    finally:
+        ip.summarizable, ip.opaque_fn = old_sum, old_op
+    if not outs:
+        return False
+    for s2, rv in outs:
+        if not isinstance(rv, VBool):
+            return False
+        if rv.e == ("c", True):
+            continue
+        if rv.e[0] == "c" or ip.branch(s2, rv.e, False):
+            return False
+    return True
+
+
 def run_rules(ctx, F, A, X):
     ip = A.ip
     # ---- GUARD
@@ -108,6 +134,9 @@ def run_rules(ctx, F, A, X):
                             ok = True
                         elif isinstance(r, VBool) and r.e == ("c", True):
                             ok = True
+                if not ok:
+                    # no explicit call: the path condition itself must entail the type's real check_tlf
+                    ok = entails_check(ip, F, p["st"], T, tlf_arg)
                 ctx.oblig(ok)
                 if not ok:
                     ctx.violation("R-C04-GUARD", "%s|%s" % (d, T), (b["span"]["file"], ev["line"], d),
